@@ -544,9 +544,18 @@ func OpusTOC(config int, stereo bool) byte {
 
 // OpusWrite builds n packets for one WriteOpus call.
 func (b *Builder) OpusWrite(writeIdx int, pts int64, ntp time.Time, n int, config int, size int) ([][]byte, []int) {
+	cfgs := make([]int, n)
+	for i := range cfgs {
+		cfgs[i] = config
+	}
+	return b.OpusWriteMixed(writeIdx, pts, ntp, cfgs, size)
+}
+
+// OpusWriteMixed builds one WriteOpus call whose packets may have different durations.
+func (b *Builder) OpusWriteMixed(writeIdx int, pts int64, ntp time.Time, configs []int, size int) ([][]byte, []int) {
 	var data [][]byte
 	var idxs []int
-	for i := 0; i < n; i++ {
+	for _, config := range configs {
 		idx := len(b.Samples)
 		pkt := append([]byte{OpusTOC(config, b.Spec.OpusCh == 2)}, Tag(b.TrackIdx, idx)...)
 		pkt = append(pkt, filler(uint64(b.TrackIdx)<<32|uint64(idx), size)...)
